@@ -469,8 +469,9 @@ INS_LETTERS = gen.LETTERS[SEQ_LETTERS:AMAX]   # never occur in those sequences
 def distinct_seqs(B, L):
 	"""example b = L pairwise distinct letters, different for every b."""
 	al = gen.LETTERS[:SEQ_LETTERS]
-	return ["".join(al[(5 * b + 3 * b * b + i) % SEQ_LETTERS]
-		for i in range(L)) for b in range(B)]
+	off = (0, 8, 3, 11)       # pairwise different at every position
+	return ["".join(al[(off[b] + i) % SEQ_LETTERS] for i in range(L))
+		for b in range(B)]
 
 
 def subsets(L, kmax=3):
